@@ -197,12 +197,32 @@ func (f *family) runBatch(peg string, cases []*gcase, vs []variant, bno int) {
 			}
 		}
 	}
+	// reference evaluation first: inputs on which plain PEG evaluation (no memoisation) explodes are dropped before
+	// they reach the real parsers (a -noast or DisableMemoize parser would need the same exponential time)
+	type refRes struct {
+		it  *ref.Interp
+		ok  bool
+		end int
+	}
+	refs := make([][]refRes, len(cases))
+	for ci, cs := range cases {
+		refs[ci] = make([]refRes, len(cs.entries))
+		for ei, e := range cs.entries {
+			it := ref.New(cs.g, e.input)
+			it.Limit = 400000
+			ok, end := it.Parse(e.ruleName(cs.g))
+			refs[ci][ei] = refRes{it, ok, end}
+		}
+	}
 	// requests
 	var reqs []corpus.Req
 	type key struct{ ci, ei, cfi int }
 	where := map[key]int{}
 	for ci, cs := range cases {
 		for ei, e := range cs.entries {
+			if refs[ci][ei].it.Over {
+				continue
+			}
 			for cfi, cf := range f.configs {
 				if cf.v.inline && e.rule > 0 {
 					continue // under -inline only the first rule is guaranteed to have a slot
@@ -218,8 +238,7 @@ func (f *family) runBatch(peg string, cases []*gcase, vs []variant, bno int) {
 	}
 	for ci, cs := range cases {
 		for ei, e := range cs.entries {
-			it := ref.New(cs.g, e.input)
-			ok, end := it.Parse(e.ruleName(cs.g))
+			it, ok, end := refs[ci][ei].it, refs[ci][ei].ok, refs[ci][ei].end
 			if it.Over {
 				f.refOver++
 				continue
@@ -298,4 +317,19 @@ func entriesFor(r *rand.Rand, g *gram.Grammar, nIn int, others bool, nOther int,
 		}
 	}
 	return es
+}
+
+// tractable drops inputs on which plain PEG evaluation of the grammar explodes (reference step limit), so that
+// parsers run without memoisation are not sent into exponential backtracking.
+func tractable(g *gram.Grammar, start string, inputs []string) []string {
+	var out []string
+	for _, in := range inputs {
+		it := ref.New(g, in)
+		it.Limit = 400000
+		it.Parse(start)
+		if !it.Over {
+			out = append(out, in)
+		}
+	}
+	return out
 }
